@@ -73,7 +73,7 @@ def c13_project(seed, nfiles, mode, reps):
     rcw, wout, _ = gen_once(ws, mode)
     cases.append(Case(dict(desc, what="whitespace"), {"whitespace_irrelevant": rcw == 0 and {k: v for k, v in wout.items() if k != ".typecache"}
                                                       == {k: v for k, v in base.items() if k != ".typecache"}}))
-    for what, tr in (("reorder", projgen.reorder), ("move", projgen.move_items), ("split", projgen.split_helpers), ("move_odd_dirs", projgen.move_to_odd_dirs)):
+    for what, tr in (("reorder", projgen.reorder), ("move", projgen.move_items), ("split", projgen.split_helpers), ("move_odd_dirs", projgen.move_to_odd_dirs), ("rotate", projgen.rotate)):
         rct, tout, _ = gen_once(projgen.render(tr(p, seed + 2)), mode)
         ok = rct == 0 and all(sorted(proc.blocks(tout.get(n, ""))) == sorted(proc.blocks(base[n]))
                               for n in base if n.endswith(".ts"))
@@ -214,6 +214,9 @@ def cases_c08(ctx):
             k += 1
             if tier == "thorough" or k % 5 == ctx["seed"] % 5:
                 hs.append(([dict(x) for x in q] + [RUN()], build))
+    # a field renamed to its own identifier under a container rule that changes that identifier
+    for build in (False, True):
+        hs.append(([EDIT("struct_rename_all"), RUN(), EDIT("field_serde_rename", 3), RUN(), EDIT("field_serde_rename", -3), RUN()], build))
     # a forced run in the middle: what it wrote must be what the record describes afterwards
     for build in (False, True):
         for a in (("param_type", "struct_field_type", "cmd_name", "output_mode", "event_name") if tier == "thorough" else ("param_type", "output_mode")):
@@ -403,7 +406,7 @@ def c17_init_case(fault, mode):
         proc.cleanup(d)
 
 
-def c17_crash_case(build, limit, aspect, zod):
+def c17_crash_case(build, limit, aspect, zod, lose=None):
     """a run that is *killed* in the middle of a write (file-size limit: SIGXFSZ) after an output-changing edit; the next
     plain run must not take the wreck for a finished generation"""
     sb = hist.Sandbox("c17crash", build=build)
@@ -411,13 +414,17 @@ def c17_crash_case(build, limit, aspect, zod):
         if zod:
             sb.edit("output_mode")
         o1 = sb.run()
-        sb.edit(aspect)
+        if lose:
+            # the record still matches: the run regenerates only because a generated file is gone
+            sb.delete(lose)
+        else:
+            sb.edit(aspect)
         if build:
             rc, so, se = proc.run_build(sb.root, fsize=limit)
         else:
             rc, so, se = proc.run_cli(sb.root, ["generate", "-c", "typegen.json"], fsize=limit)
         o3 = sb.run()
-        return Case({"what": "crash", "build": build, "limit": limit, "aspect": aspect, "zod": zod},
+        return Case({"what": "crash", "build": build, "limit": limit, "aspect": aspect, "zod": zod, "lose": lose},
                     {"crashed_run_not_remembered": o1["res"] == "ok" and o3["res"] == "ok" and o3.get("current", False)},
                     detail={"crash_rc": rc, "after": {k: o3.get(k) for k in ("res", "action", "stale", "current")}, "stderr": se[-200:]})
     finally:
@@ -431,7 +438,7 @@ def cases_c17(ctx):
         if d.get("what") == "init_fault":
             return [c17_init_case(d["fault"], d["mode"])]
         if d.get("what") == "crash":
-            return [c17_crash_case(d["build"], d["limit"], d["aspect"], d["zod"])]
+            return [c17_crash_case(d["build"], d["limit"], d["aspect"], d["zod"], d.get("lose"))]
         return history_cases([(d["steps"], d["build"])], ctx, extra_oracle=fault_oracle)
     hs = []
     for build in (False, True):
@@ -472,6 +479,12 @@ def cases_c17(ctx):
     for build in (False, True):
         for k, limit in enumerate((0, 100, 400, 900, 1500) if tier == "thorough" else (0, 400, 1500)):
             out.append(c17_crash_case(build, limit, ("param_type", "cmd_name")[k % 2], k % 2 == 1))
+        # the same limits with the signal ignored: the write is accepted up to the limit and then refused (a short write);
+        # and a run that regenerates because a file went missing while the record still matches
+        for k, limit in enumerate((-1, -400, -900, -1500) if tier == "thorough" else (-400, -1500)):
+            out.append(c17_crash_case(build, limit, ("cmd_name", "param_type")[k % 2], k % 2 == 0))
+            out.append(c17_crash_case(build, limit, "param_type", False, lose=("types.ts", "commands.ts")[k % 2]))
+        out.append(c17_crash_case(build, 400, "param_type", False, lose="types.ts"))
     return out
 
 
@@ -508,13 +521,19 @@ def c16_case(layout, path_kind, mode, seq, seed, tables=None):
     try:
         proj = os.path.join(root, "proj")
         p = projgen.make_project(seed, 2)
-        proc.write_files(os.path.join(proj, "src-tauri"), projgen.render(p))
+        # every third case: a project with commands and no events (no events.ts is ever due)
+        proc.write_files(os.path.join(proj, "src-tauri"), PRIM_ONLY if (seed + len(seq)) % 3 == 0 else projgen.render(p))
         proc.write_files(proj, {"tauri.conf.json": json.dumps({"productName": "demo", "plugins": {"other": {"k": [1, 2]}}}, indent=2),
                                 "package.json": "{}", "src/main.ts": "console.log(1)\n", "../sibling.txt": "outside\n"})
         out_rel = {"beside": "out", "nested": "src-tauri/generated", "deep": "web/src/lib/bindings", "up": "../outside_out",
                    "backslash": "ui\\generated", "spaces": "gen out/my bindings", "dotted": "./out2/./bindings/"}[layout]
         out_abs = os.path.normpath(os.path.join(proj, out_rel))
         os.makedirs(out_abs, exist_ok=True)
+        # files of the user's *beside* the output directory that carry the names of generated files
+        for n in ("events.ts", "types.ts", "commands.ts", "index.ts", ".typecache"):
+            q = os.path.join(os.path.dirname(out_abs), n)
+            if not os.path.exists(q):
+                open(q, "w").write("// the user's own %s, next to the output directory\n" % n)
         for n in FOREIGN + RESERVED_DECOYS:
             q = os.path.join(out_abs, n)
             if n == "generated":
@@ -535,6 +554,7 @@ def c16_case(layout, path_kind, mode, seq, seed, tables=None):
         for act in seq:
             before = proc.snapshot(root)
             cfg_touched = None
+            allowed_dir = out_abs
             if act == "generate":
                 rc, so, se = proc.run_cli(proj, ["generate", "-c", "typegen.json"])
             elif act == "generate_viz":
@@ -544,6 +564,12 @@ def c16_case(layout, path_kind, mode, seq, seed, tables=None):
             elif act == "init":
                 rc, so, se = proc.run_cli(proj, ["init", "-p", "src-tauri", "-g", out_arg, "-v", mode])
                 cfg_touched = os.path.relpath(os.path.join(proj, "src-tauri", "tauri.conf.json"), root)
+            elif act == "init_other":
+                # a second `init` naming another directory for the bindings: the one configured before is not this run's
+                other = os.path.join(os.path.dirname(out_abs), "second_out")
+                rc, so, se = proc.run_cli(proj, ["init", "-p", "src-tauri", "-g", other if path_kind == "abs" else os.path.relpath(other, proj), "-v", mode])
+                cfg_touched = os.path.relpath(os.path.join(proj, "src-tauri", "tauri.conf.json"), root)
+                allowed_dir = other
             elif act == "init_dot":
                 # the configuration document named explicitly, in the `./` spelling, while the project path has one too
                 rc, so, se = proc.run_cli(proj, ["init", "-p", "src-tauri", "-g", out_arg, "-o", "./tauri.conf.json", "-v", mode])
@@ -592,7 +618,7 @@ def c16_case(layout, path_kind, mode, seq, seed, tables=None):
                 proc.write_files(os.path.join(proj, "src-tauri"), {"tauri.conf.json": json.dumps({"identifier": "x", "plugins": {}})})
                 continue
             after = proc.snapshot(root)
-            out_in_root = os.path.relpath(out_abs, root)
+            out_in_root = os.path.relpath(allowed_dir, root)
             for path in sorted(set(before) | set(after)):
                 if before.get(path) == after.get(path):
                     continue
@@ -713,6 +739,8 @@ def cases_c16(ctx):
         ["generate", "block_probe", "generate", "touch_source", "generate", "unblock_probe", "generate"],
         ["block_probe", "build", "unblock_probe", "build"],
         ["need_conf", "init_dot", "generate"],
+        ["need_conf", "init", "generate", "init_other", "generate"],
+        ["need_conf", "init", "init_other"],
         ["cache_dir", "generate", "build"],
         ["generate", "cache_dir", "touch_source", "generate", "build"],
     ]
@@ -778,6 +806,8 @@ def c19_resolve_case(flags, filecfg, tables, spelling="plain"):
         c19_project(root, "src-tauri", "from_default")
         c19_project(root, "projA", "from_file")
         c19_project(root, "projB", "from_flag")
+        # an existing project without any command (an unsupported library is an error there too)
+        proc.write_files(os.path.join(root, "empty_proj"), {"lib.rs": "pub fn helper() {}\n"})
         doc = None
         if filecfg is not None:
             doc = {"productName": "demo", "plugins": {"typegen": filecfg}}
@@ -822,7 +852,7 @@ def c19_resolve_case(flags, filecfg, tables, spelling="plain"):
                 s2 = proc.snapshot(os.path.join(root, outdir))
                 observed = {"ok": {"projectPath": pp[0] if pp else "?", "outputPath": outdir, "validationLibrary": lib,
                                    "verbose": verbose, "force": s1.get("types.ts") != s2.get("types.ts")}}
-        existing = ["./src-tauri", "projA", "projB"]
+        existing = ["./src-tauri", "projA", "projB", "empty_proj"]
         req = {"op": "configResolve", "h": core.hashlib.sha1(json.dumps([flags, filecfg], sort_keys=True).encode()).hexdigest()[:16],
                "in": {"flags": flags, "doc": doc, "existing": existing},
                "impl": {"observed": observed, "wrote_anything": wrote and rc != 0}, "meta": {}}
@@ -850,9 +880,13 @@ def c19_init_case(lib, plugins_value):
         snap2 = proc.snapshot(root)
         valid = lib in ("zod", "none") and (plugins_value is None or isinstance(plugins_value, dict))
         if valid:
-            written = json.loads(after).get("plugins", {}).get("typegen", {})
+            try:
+                adoc = json.loads(after)
+            except ValueError:
+                adoc = {}
+            written = adoc.get("plugins", {}).get("typegen", {}) if isinstance(adoc.get("plugins", {}), dict) else {}
             ok = rc == 0 and written.get("validationLibrary") == lib and all(
-                json.loads(after).get(k) == v for k, v in doc.items() if k != "plugins")
+                adoc.get(k) == v for k, v in doc.items() if k != "plugins")
             return Case({"what": "init", "lib": lib, "plugins": plugins_value}, {"init_stores_settings": ok}, [],
                         detail={"rc": rc, "stderr": se[-200:]})
         return Case({"what": "init", "lib": lib, "plugins": plugins_value},
@@ -896,13 +930,27 @@ def c19_init_target_case(out_arg, lib):
         for rel, d in docs.items():
             os.makedirs(os.path.dirname(os.path.join(root, rel)) or root, exist_ok=True)
             with open(os.path.join(root, rel), "w") as fh:
-                json.dump(d, fh, indent=2)
+                # the documents come in the layouts people (and formatters) write: 2 spaces, tabs, compact, comma-first, CRLF
+                lay = (len(out_arg) + len(rel)) % 5
+                if lay == 0:
+                    json.dump(d, fh, indent=2)
+                elif lay == 1:
+                    json.dump(d, fh, indent="\t")
+                elif lay == 2:
+                    json.dump(d, fh)
+                elif lay == 3:
+                    fh.write("{ " + "\n, ".join("%s: %s" % (json.dumps(k), json.dumps(v)) for k, v in d.items()) + "\n}\n")
+                else:
+                    fh.write(json.dumps(d, indent=4).replace("\n", "\r\n"))
         before = {rel: open(os.path.join(root, rel)).read() for rel in docs}
         rc, so, se = proc.run_cli(root, ["init", "-p", "src-tauri", "-g", "out", "-o", out_arg, "-v", lib])
         after = {rel: open(os.path.join(root, rel)).read() for rel in docs}
         # the bare default name is documented to mean "the one in the project path"; every other spelling names a file
         target = "src-tauri/tauri.conf.json" if out_arg == "tauri.conf.json" else os.path.normpath(out_arg)
-        got = json.loads(after[target]) if target in after else {}
+        try:
+            got = json.loads(after[target]) if target in after else {}
+        except ValueError:
+            got = {"__not_json__": True}   # the rewritten document is not JSON any more
         stored = got.get("plugins", {}).get("typegen", {})
         ok_target = rc == 0 and stored.get("validationLibrary") == lib and stored.get("outputPath") == "out" and all(
             got.get(k) == v for k, v in docs[target].items() if k != "plugins") and all(
@@ -948,6 +996,8 @@ def cases_c19(ctx):
         jobs.append(({"o": "./src/generated"}, f, ctx["tables"]))
         jobs.append(({"p": "./src-tauri", "o": "./src/generated", "v": "none"}, f, ctx["tables"]))
         jobs.append(({"p": "./src-tauri"}, f, ctx["tables"]))
+    jobs.append(({"v": "yup", "p": "empty_proj"}, files[1], ctx["tables"]))
+    jobs.append(({"p": "empty_proj"}, files[3], ctx["tables"]))
     jobs.append(({"v": "yup"}, files[1], ctx["tables"]))
     jobs.append(({"p": "nowhere"}, files[1], ctx["tables"]))
     out = list(POOL.map(lambda a: c19_resolve_case(*a), jobs))
